@@ -177,6 +177,11 @@ func vtResolve(p vtAns, inm int) vtAns {
 }
 
 func vtReply(a vtAns) vs.HookReply {
+	if a.St == 1 {
+		// "client timeout": the hook DOES answer, well-formed and 200, but only after the configured timeout has long run
+		// out (the caller sleeps first): a client that still listens -- say, one built with another timeout -- accepts it
+		return vs.HookReply{Status: 200, Body: []byte(`{"status":{"late":"1"},"children":[]}`)}
+	}
 	if a.St < 100 {
 		return vs.HookReply{Status: 0}
 	}
@@ -241,7 +246,7 @@ func vtHandler(c *vs.HookCall) vs.HookReply {
 	st.mu.Lock()
 	st.last = r
 	st.mu.Unlock()
-	if st.slowMs > 0 { // "timeout": outlast http.Client.Timeout, then fail like a cut connection
+	if st.slowMs > 0 { // "timeout": outlast http.Client.Timeout, then answer all the same
 		time.Sleep(time.Duration(st.slowMs) * time.Millisecond)
 	}
 	return r
